@@ -501,20 +501,29 @@ func joinOr(xs []string) string {
 // ---------------------------------------------------------------------------
 // One uninterrupted run of a workload with an image after every commit.
 
-type run struct {
-	key    string
-	root   string
+// A life is one process run on a database directory: blockchain.New, then a
+// list of ops, with a crash image after every committed db.Update.
+type life struct {
+	root   string   // directory holding live/ and img<k>/
 	w      *world
 	c      cfg
 	ops    []string
 	n      int      // number of commits
 	pers   []string // pers[k], k = 1..n
 	window []string // window[k]: "-" | "old:new"
-	acked  [][]int  // acked[k]: blocks whose ProcessBlock returned before commit k+1 was made
+	ackEnd map[int]int // block id -> commit count when its ProcessBlock returned without error
 	res    []string // per op result
 	finTip int
-	finUtx string
 	bad    string
+}
+
+type run struct {
+	key  string
+	root string
+	w    *world
+	l1   *life
+	// second lives, by first-level crash index
+	l2 map[int]*life
 }
 
 var cached *run
@@ -567,104 +576,110 @@ func errClass(err error) string {
 	return "err"
 }
 
-func (r *run) img(k int) string { return filepath.Join(r.root, fmt.Sprintf("img%d", k)) }
+func (l *life) img(k int) string { return filepath.Join(l.root, fmt.Sprintf("img%d", k)) }
 
-func doRun(key string, c cfg, descs []blkDesc, ops []string) *run {
-	purgeStale()
-	root, err := os.MkdirTemp(tmpBase(), "c04-")
-	if err != nil {
-		panic(err)
-	}
-	t0 := time.Now()
-	defer func() {
-		if os.Getenv("VERIF_C04_ECHO") != "" {
-			fmt.Fprintf(os.Stderr, "doRun %v\n", time.Since(t0))
-		}
-	}()
-	r := &run{key: key, root: root, w: buildWorld(descs), c: c, ops: ops}
+// runLife starts a process on a copy of startDir ("" = empty directory) and
+// performs ops.
+func runLife(root string, startDir string, w *world, c cfg, ops []string) *life {
+	os.MkdirAll(root, 0o755)
+	l := &life{root: root, w: w, c: c, ops: ops, ackEnd: map[int]int{}}
 	live := filepath.Join(root, "live")
-	raw, err := openDB(live, c, true)
-	if err != nil {
-		panic(err)
+	var raw database.DB
+	var err error
+	if startDir == "" {
+		raw, err = openDB(live, c, true)
+	} else {
+		copyTree(startDir, live)
+		raw, err = openDB(live, c, false)
 	}
-	r.pers = []string{""}
-	r.window = []string{"-"}
-	type ackRec struct{ id, e int }
-	var acks []ackRec
+	if err != nil {
+		l.bad = "dberr"
+		return l
+	}
+	defer raw.Close()
+	l.pers = []string{""}
+	l.window = []string{"-"}
 	cdb := &countDB{DB: raw}
 	cdb.after = func(k int) {
-		copyTree(live, r.img(k))
-		r.pers = append(r.pers, r.w.persisted(raw))
-		r.window = append(r.window, "-")
+		copyTree(live, l.img(k))
+		l.pers = append(l.pers, w.persisted(raw))
+		l.window = append(l.window, "-")
 	}
-	ch, err := r.w.newChain(cdb, c)
+	ch, err := w.newChain(cdb, c)
 	if err != nil {
-		raw.Close()
-		r.bad = "new:" + errClass(err)
-		return r
+		l.bad = "new:" + errClass(err)
+		return l
 	}
 	type note struct {
-		conn bool
-		id   int
-		at   int
+		at int
 	}
 	var notes []note
 	ch.Subscribe(func(n *blockchain.Notification) {
 		switch n.Type {
-		case blockchain.NTBlockConnected:
-			notes = append(notes, note{true, r.w.id(n.Data.(*btcutil.Block).Hash()), cdb.n})
-		case blockchain.NTBlockDisconnected:
-			notes = append(notes, note{false, r.w.id(n.Data.(*btcutil.Block).Hash()), cdb.n})
+		case blockchain.NTBlockConnected, blockchain.NTBlockDisconnected:
+			notes = append(notes, note{cdb.n})
 		}
 	})
 	for _, op := range ops {
 		switch {
 		case op == "f":
-			r.res = append(r.res, errClass(ch.FlushUtxoCache(blockchain.FlushRequired)))
+			l.res = append(l.res, errClass(ch.FlushUtxoCache(blockchain.FlushRequired)))
 		case op == "i":
-			r.res = append(r.res, errClass(ch.FlushUtxoCache(blockchain.FlushIfNeeded)))
+			l.res = append(l.res, errClass(ch.FlushUtxoCache(blockchain.FlushIfNeeded)))
 		case strings.HasPrefix(op, "d"):
 			id, _ := strconv.Atoi(op[1:])
-			blk := r.w.byID[id]
 			start := cdb.n
-			old := r.w.id(&ch.BestSnapshot().Hash)
+			old := w.id(&ch.BestSnapshot().Hash)
 			notes = notes[:0]
 			// a fresh copy so that cached heights of an earlier run do not leak
-			nb := btcutil.NewBlock(blk.MsgBlock())
+			nb := btcutil.NewBlock(w.byID[id].MsgBlock())
 			main, orphan, err := ch.ProcessBlock(nb, blockchain.BFNone)
 			res := errClass(err)
 			if err == nil {
 				res = fmt.Sprintf("ok%s%s", b01(main), b01(orphan))
 			}
-			r.res = append(r.res, res)
-			now := r.w.id(&ch.BestSnapshot().Hash)
+			l.res = append(l.res, res)
+			now := w.id(&ch.BestSnapshot().Hash)
 			if len(notes) > 0 && now != old {
 				// activation window: after the block's index row (second commit
 				// of the delivery) up to the commit before the last connect.
 				last := notes[len(notes)-1].at // commits done when the last connect was notified
-				for k := start + 2; k < last && k < len(r.window); k++ {
-					r.window[k] = fmt.Sprintf("%d:%d", old, now)
+				for k := start + 2; k < last && k < len(l.window); k++ {
+					l.window[k] = fmt.Sprintf("%d:%d", old, now)
 				}
 			}
 			// storage acknowledged: ProcessBlock returned without error
 			if err == nil && !orphan {
-				acks = append(acks, ackRec{id, cdb.n})
+				if _, dup := l.ackEnd[id]; !dup {
+					l.ackEnd[id] = cdb.n
+				}
 			}
 		}
 	}
-	r.n = cdb.n
-	r.acked = make([][]int, r.n+1)
-	for k := 1; k <= r.n; k++ {
-		for _, a := range acks {
-			if a.e <= k {
-				r.acked[k] = append(r.acked[k], a.id)
-			}
+	l.n = cdb.n
+	l.finTip = w.id(&ch.BestSnapshot().Hash)
+	return l
+}
+
+func (l *life) acked(k int) []int {
+	var out []int
+	for id, e := range l.ackEnd {
+		if e <= k {
+			out = append(out, id)
 		}
 	}
-	r.finTip = r.w.id(&ch.BestSnapshot().Hash)
-	r.finUtx = r.w.utxoList(ch)
-	raw.Close()
-	return r
+	sort.Ints(out)
+	return out
+}
+
+func deliveries(ops []string) []string {
+	var out []string
+	for _, op := range ops {
+		if strings.HasPrefix(op, "d") {
+			out = append(out, op)
+		}
+	}
+	return out
 }
 
 func b01(b bool) string {
@@ -674,27 +689,27 @@ func b01(b bool) string {
 	return "0"
 }
 
-// reopen image k: r=<ok|err>,<tip>,<utxo>,<missing> and the final state after
-// feeding every delivery of the workload again.
-func (r *run) reopen(k int) string {
-	work := filepath.Join(r.root, "work")
+// reopen an image: r=<ok|err>,<tip>,<chain>,<utxo>,<missing> and the final
+// state after feeding every delivery of the workload again.
+func reopen(root, imgDir string, w *world, c cfg, acked []int, ops []string) string {
+	work := filepath.Join(root, "work")
 	os.RemoveAll(work)
-	copyTree(r.img(k), work)
+	copyTree(imgDir, work)
 	defer os.RemoveAll(work)
-	raw, err := openDB(work, r.c, false)
+	raw, err := openDB(work, c, false)
 	if err != nil {
 		return "r=dberr"
 	}
 	defer raw.Close()
-	ch, err := r.w.newChain(raw, r.c)
+	ch, err := w.newChain(raw, c)
 	if err != nil {
 		return "r=err:" + errClass(err)
 	}
-	tip := r.w.id(&ch.BestSnapshot().Hash)
-	utxo := r.w.utxoList(ch)
+	tip := w.id(&ch.BestSnapshot().Hash)
+	utxo := w.utxoList(ch)
 	missing := 0
-	for _, id := range r.acked[k] {
-		if ok, err := ch.HaveBlock(r.w.byID[id].Hash()); err != nil || !ok {
+	for _, id := range acked {
+		if ok, err := ch.HaveBlock(w.byID[id].Hash()); err != nil || !ok {
 			missing++
 		}
 	}
@@ -706,17 +721,15 @@ func (r *run) reopen(k int) string {
 			chain = append(chain, "?")
 			continue
 		}
-		chain = append(chain, strconv.Itoa(r.w.id(hh)))
+		chain = append(chain, strconv.Itoa(w.id(hh)))
 	}
 	out := fmt.Sprintf("r=ok,%d,%s,%s,%d", tip, strings.Join(chain, "."), utxo, missing)
-	for _, op := range r.ops {
-		if strings.HasPrefix(op, "d") {
-			id, _ := strconv.Atoi(op[1:])
-			ch.ProcessBlock(btcutil.NewBlock(r.w.byID[id].MsgBlock()), blockchain.BFNone)
-		}
+	for _, op := range deliveries(ops) {
+		id, _ := strconv.Atoi(op[1:])
+		ch.ProcessBlock(btcutil.NewBlock(w.byID[id].MsgBlock()), blockchain.BFNone)
 	}
-	ft := r.w.id(&ch.BestSnapshot().Hash)
-	out += fmt.Sprintf(" fin=%d;%d;%s", ft, ft, r.w.utxoList(ch))
+	ft := w.id(&ch.BestSnapshot().Hash)
+	out += fmt.Sprintf(" fin=%d;%d;%s", ft, ft, w.utxoList(ch))
 	return out
 }
 
@@ -729,47 +742,142 @@ func (p P) Exec(line string) string {
 	return out
 }
 
+func getRun(t []string) (*run, cfg, []string, bool) {
+	c, ok := parseCfg(t[2], t[3])
+	if !ok {
+		return nil, c, nil, false
+	}
+	descs, ok := parseBlocks(t[4])
+	if !ok {
+		return nil, c, nil, false
+	}
+	ops, ok := parseOps(t[5], descs)
+	if !ok {
+		return nil, c, nil, false
+	}
+	key := strings.Join(t[2:6], " ")
+	if cached == nil || cached.key != key {
+		cached.close()
+		purgeStale()
+		root, err := os.MkdirTemp(tmpBase(), "c04-")
+		if err != nil {
+			panic(err)
+		}
+		w := buildWorld(descs)
+		cached = &run{key: key, root: root, w: w, l2: map[int]*life{}}
+		cached.l1 = runLife(filepath.Join(root, "l1"), "", w, c, ops)
+	}
+	return cached, c, ops, true
+}
+
 func (P) exec(line string) string {
 	t := strings.Fields(line)
 	if len(t) < 2 || t[0] != "C04" {
 		return "bad-op"
 	}
 	switch t[1] {
-	case "img":
+	case "img", "torn":
 		if len(t) != 7 {
-			return "malformed"
-		}
-		c, ok := parseCfg(t[2], t[3])
-		if !ok {
-			return "malformed"
-		}
-		descs, ok := parseBlocks(t[4])
-		if !ok {
-			return "malformed"
-		}
-		ops, ok := parseOps(t[5], descs)
-		if !ok {
 			return "malformed"
 		}
 		k, err := strconv.Atoi(t[6])
 		if err != nil || k < 1 {
 			return "malformed"
 		}
-		key := strings.Join(t[2:6], " ")
-		if cached == nil || cached.key != key {
-			cached.close()
-			cached = doRun(key, c, descs, ops)
+		r, c, ops, ok := getRun(t)
+		if !ok {
+			return "malformed"
 		}
-		r := cached
-		if r.bad != "" {
-			return r.bad
+		l := r.l1
+		if l.bad != "" {
+			return l.bad
 		}
-		if k > r.n {
-			return fmt.Sprintf("n=%d out-of-range", r.n)
+		if k > l.n {
+			return fmt.Sprintf("n=%d out-of-range", l.n)
 		}
-		return fmt.Sprintf("n=%d res=%s %s w=%s %s", r.n, strings.Join(r.res, "."), r.pers[k], r.window[k], r.reopen(k))
+		img := l.img(k)
+		if t[1] == "torn" {
+			// a partially written next block after the write cursor, no metadata
+			img = filepath.Join(r.root, "torn")
+			os.RemoveAll(img)
+			copyTree(l.img(k), img)
+			tear(img)
+		}
+		return fmt.Sprintf("n=%d res=%s %s w=%s %s", l.n, strings.Join(l.res, "."), l.pers[k], l.window[k],
+			reopen(r.root, img, r.w, c, l.acked(k), ops))
+	case "img2":
+		// crash at k, reopen, feed the deliveries again, crash at the j-th commit of that second life
+		if len(t) != 8 {
+			return "malformed"
+		}
+		k, err := strconv.Atoi(t[6])
+		j, err2 := strconv.Atoi(t[7])
+		if err != nil || err2 != nil || k < 1 || j < 1 {
+			return "malformed"
+		}
+		r, c, ops, ok := getRun(t)
+		if !ok {
+			return "malformed"
+		}
+		l := r.l1
+		if l.bad != "" {
+			return l.bad
+		}
+		if k > l.n {
+			return fmt.Sprintf("n=%d out-of-range", l.n)
+		}
+		l2 := r.l2[k]
+		if l2 == nil {
+			for kk, old := range r.l2 {
+				os.RemoveAll(old.root)
+				delete(r.l2, kk)
+			}
+			l2 = runLife(filepath.Join(r.root, fmt.Sprintf("l2-%d", k)), l.img(k), r.w, c, deliveries(ops))
+			r.l2[k] = l2
+		}
+		if l2.bad != "" {
+			return fmt.Sprintf("n=%d r1=%s", l.n, l2.bad)
+		}
+		if j > l2.n {
+			return fmt.Sprintf("n=%d n2=%d out-of-range", l.n, l2.n)
+		}
+		ack := map[int]bool{}
+		for _, id := range l.acked(k) {
+			ack[id] = true
+		}
+		for _, id := range l2.acked(j) {
+			ack[id] = true
+		}
+		var acked []int
+		for id := range ack {
+			acked = append(acked, id)
+		}
+		sort.Ints(acked)
+		return fmt.Sprintf("n=%d n2=%d res2=%s %s w1=%s w=%s %s", l.n, l2.n, strings.Join(l2.res, "."), l2.pers[j], l.window[k], l2.window[j],
+			reopen(r.root, l2.img(j), r.w, c, acked, ops))
 	}
 	return "bad-op"
+}
+
+// tear appends a partial block record to the newest block file.
+func tear(dir string) {
+	ents, _ := os.ReadDir(dir)
+	last := ""
+	for _, e := range ents {
+		if strings.HasSuffix(e.Name(), ".fdb") && e.Name() > last {
+			last = e.Name()
+		}
+	}
+	if last == "" {
+		return
+	}
+	f, err := os.OpenFile(filepath.Join(dir, last), os.O_APPEND|os.O_WRONLY, 0o644)
+	if err != nil {
+		return
+	}
+	// network magic + a length that promises more than follows
+	f.Write([]byte{0x0b, 0x11, 0x09, 0x07, 0xff, 0x00, 0x00, 0x00, 1, 2, 3, 4, 5, 6, 7})
+	f.Close()
 }
 
 func parseOps(s string, descs []blkDesc) ([]string, bool) {
@@ -1049,18 +1157,41 @@ func wlTree(r *core.Rand, n int) *gw {
 	return g
 }
 
-func (P) Generate(g *core.Gen) {
-	emit := func(class string, cache int, w *gw, stride int) {
-		c := cfg{cache: cache}
-		key := fmt.Sprintf("%d 0 %s %s", cache, w.blocksStr(), w.opsStr())
-		descs, ok1 := parseBlocks(w.blocksStr())
-		ops, ok2 := parseOps(w.opsStr(), descs)
-		if !ok1 || !ok2 {
-			panic("generator produced a malformed workload: " + key)
+// long linear chain (pruning needs a few block files), optionally a one-deep
+// reorganisation near the end.
+func wlLong(r *core.Rand, n int, fork bool) *gw {
+	g := newGW(r)
+	tip := 0
+	prev := 0
+	for i := 0; i < n; i++ {
+		prev = tip
+		tip = g.add(tip, 0, 2)
+		g.deliver(tip)
+		if r.Chance(1, 12) {
+			g.ops = append(g.ops, "f")
 		}
-		cached.close()
-		cached = doRun(key, c, descs, ops)
-		n := cached.n
+	}
+	if fork {
+		s1 := g.add(prev, 0, 1)
+		g.deliver(s1)
+		s2 := g.add(s1, 0, 1)
+		g.deliver(s2)
+	}
+	return g
+}
+
+func (P) Generate(g *core.Gen) {
+	// emit one workload: first-level images with the given stride, a few torn
+	// variants, and second-level images (crash, reopen, re-feed, crash again;
+	// the first commits of a second life are the recovery's own) for nk
+	// first-level crash points.
+	emit := func(class string, cache int, prune string, w *gw, stride int, nk int, nj int) {
+		key := fmt.Sprintf("%d %s %s %s", cache, prune, w.blocksStr(), w.opsStr())
+		r, _, _, ok := getRun(strings.Fields("C04 img " + key + " 1"))
+		if !ok || r.l1.bad != "" {
+			panic("generator: workload does not run: " + key)
+		}
+		n := r.l1.n
 		off := 0
 		if stride > 1 {
 			off = g.R.Intn(stride)
@@ -1072,42 +1203,66 @@ func (P) Generate(g *core.Gen) {
 			g.Case(class, k > 3, fmt.Sprintf("C04 img %s %d", key, k))
 		}
 		g.Case(class+"-range", false, fmt.Sprintf("C04 img %s %d", key, n+1))
+		for i := 0; i < 2 && n > 3; i++ {
+			g.Case(class+"-torn", true, fmt.Sprintf("C04 torn %s %d", key, 4+g.R.Intn(n-3)))
+		}
+		for i := 0; i < nk && n > 3; i++ {
+			k := 4 + g.R.Intn(n-3)
+			// prefer crash points inside an activation window or with a lagging marker
+			for try := 0; try < 6 && r.l1.window[k] == "-" && !strings.Contains(r.l1.pers[k], "marker=0 "); try++ {
+				k = 4 + g.R.Intn(n-3)
+			}
+			for q := 0; q < nj; q++ {
+				j := 1 + g.R.Intn(8)
+				if q%2 == 1 {
+					j = 1 + g.R.Intn(5*len(w.descs)+8)
+				}
+				g.Case(class+"-2nd", true, fmt.Sprintf("C04 img2 %s %d %d", key, k, j))
+			}
+		}
 	}
 	r := g.R
 	if !g.Thorough() {
-		emit("linear", r.Intn(2), wlLinear(r, 3), 1)
-		emit("reorg", r.Intn(2), wlReorg(r, 2, 0, 3, false, -1), 1)
-		emit("reorg-deep", r.Intn(2), wlReorg(r, 3+r.Intn(2), r.Intn(2), 5, r.Bool(), -1), 2)
-		emit("reorg-invalid", r.Intn(2), wlReorg(r, 2, r.Intn(2), 3, false, r.Intn(3)), 1)
-		emit("invalid", r.Intn(2), wlInvalid(r), 1)
-		emit("tree", r.Intn(2), wlTree(r, 7), 2)
+		emit("linear", r.Intn(2), "0", wlLinear(r, 3), 1, 1, 3)
+		emit("reorg", r.Intn(2), "0", wlReorg(r, 2, 0, 3, false, -1), 1, 1, 3)
+		emit("reorg-deep", r.Intn(2), "0", wlReorg(r, 3+r.Intn(2), r.Intn(2), 5, r.Bool(), -1), 2, 1, 3)
+		emit("reorg-invalid", r.Intn(2), "0", wlReorg(r, 2, r.Intn(2), 3, false, r.Intn(3)), 1, 0, 0)
+		emit("invalid", r.Intn(2), "0", wlInvalid(r), 1, 0, 0)
+		emit("tree", r.Intn(2), "0", wlTree(r, 7), 2, 1, 2)
+		emit("prune", 1, "2000:1000", wlLong(r, 14+r.Intn(3), false), 6, 2, 3)
+		emit("prune", 0, "2000:1000", wlLong(r, 11, true), 9, 1, 2)
 	} else {
 		for i := 0; i < 8; i++ {
-			emit("linear", i%2, wlLinear(r, 2+r.Intn(5)), 1)
+			emit("linear", i%2, "0", wlLinear(r, 2+r.Intn(5)), 1, 1, 3)
 		}
 		for i := 0; i < 16; i++ {
 			a := 1 + r.Intn(4)
 			f := r.Intn(a)
-			emit("reorg", i%2, wlReorg(r, a, f, a-f+1+r.Intn(2), r.Chance(1, 3), -1), 1)
+			emit("reorg", i%2, "0", wlReorg(r, a, f, a-f+1+r.Intn(2), r.Chance(1, 3), -1), 1, 2, 4)
 		}
 		for i := 0; i < 10; i++ {
 			a := 1 + r.Intn(4)
 			f := r.Intn(a)
 			b := a - f + 1 + r.Intn(2)
-			emit("reorg-invalid", i%2, wlReorg(r, a, f, b, r.Chance(1, 3), r.Intn(b)), 1)
+			emit("reorg-invalid", i%2, "0", wlReorg(r, a, f, b, r.Chance(1, 3), r.Intn(b)), 1, 1, 3)
 		}
 		for i := 0; i < 6; i++ {
-			emit("invalid", i%2, wlInvalid(r), 1)
+			emit("invalid", i%2, "0", wlInvalid(r), 1, 1, 2)
 		}
 		for i := 0; i < 20; i++ {
-			emit("tree", i%2, wlTree(r, 6+r.Intn(8)), 1)
+			emit("tree", i%2, "0", wlTree(r, 6+r.Intn(8)), 1, 1, 3)
+		}
+		for i := 0; i < 8; i++ {
+			prune := []string{"2000:1000", "3000:1000", "1600:800", "2400:1200"}[r.Intn(4)]
+			emit("prune", i%2, prune, wlLong(r, 14+r.Intn(12), i%3 == 0), 3, 4, 6)
 		}
 	}
 	// malformed / boundary lines
 	for _, l := range []string{
 		"C04 img 2 0 1:0:- d1 1", "C04 img 0 0 1:1:- d1 1", "C04 img 0 0 1:0:- d2 1", "C04 img 0 0 1:0:- d1 0",
 		"C04 img 0 0 1:0:-:y d1 1", "C04 img 0 0 1:0:-,1:0:- d1 1", "C04 img 0 0 - - 1", "C04 img 0 0 - - 3", "C04 img 0 0 - - 4",
-		"C04 img 0 0 1:0:- d1", "C04 nop",
+		"C04 img 0 0 1:0:- d1", "C04 nop", "C04 img 0 500:1000 1:0:- d1 1", "C04 img 0 1000:0 1:0:- d1 1",
+		"C04 img2 0 0 1:0:- d1 4 0", "C04 img2 0 0 1:0:- d1 4 1", "C04 img2 0 0 1:0:- d1 4 99", "C04 torn 0 0 1:0:- d1 5",
 	} {
 		g.Case("malformed", false, l)
 	}
@@ -1135,7 +1290,7 @@ func fields(s string) map[string]string {
 // final state of the uninterrupted run (first component).
 func (P) ClassifyMismatch(line, goOut, leanOut string) string {
 	gf, lf := fields(goOut), fields(leanOut)
-	if len(gf) != len(lf) || gf["w"] == "" || gf["w"] == "-" {
+	if len(gf) != len(lf) || gf["w"] == "" || (gf["w"] == "-" && (gf["w1"] == "" || gf["w1"] == "-")) {
 		return ""
 	}
 	for k, v := range gf {
@@ -1155,7 +1310,7 @@ func (P) ClassifyMismatch(line, goOut, leanOut string) string {
 		return ""
 	}
 	t := strings.Fields(line)
-	if len(t) != 7 {
+	if len(t) != 7 && len(t) != 8 {
 		return ""
 	}
 	descs, ok := parseBlocks(t[4])
